@@ -107,7 +107,8 @@ def gen_leaf(rng, failing=True):
     if r < 0.8:
         return ('lit', rng.randint(0, 9))
     if r < 0.86:
-        return ('txt', rng.choice(['x', 'yes', 'no']))
+        # (texts that merely BEGIN with the spelling of an error value are ordinary texts)
+        return ('txt', rng.choice(['x', 'yes', 'no', '#N/A - none yet', '#REF!s', '#DIV/0!!']))
     if r < 0.88:
         return ('bool', rng.random() < 0.5)
     if failing and r < 0.93:
@@ -258,7 +259,7 @@ def run(R, tier):
             c = R.rng.choice(['A1', 'A4', 'A9', 'B2'])
             core = ('iferror', ('cell', c), R.rng.choice([('lit', -1), ('cell', 'B2'), ('txt', 'bad')]))
             e = R.rng.choice([core, ('bin', '+', core, ('lit', 1)), ('if', ('cmp', '>', core, ('lit', 3)), ('txt', 'big'), ('txt', 'small')), ('iferror', core, ('lit', -7))])
-            forced = {c: C.jenc(R.rng.choice(['#N/A', '#DIV/0!', '#VALUE!', '#REF!', 5]))}
+            forced = {c: C.jenc(R.rng.choice(['#N/A', '#DIV/0!', '#VALUE!', '#REF!', 5, '#REF!erence', '#NUM!ber of items']))}
         import re as _re
         # a * or ? between two double quotes is lexed as ONE wildcard-pattern literal (a lexer defect recorded under C05/C07): keep clear of it
         if size(e) <= 14 and e[0] not in ('cell', 'lit', 'txt', 'div0', 'raise') and not _re.search(r'".*[?*].*"', render(e)):
@@ -269,7 +270,7 @@ def run(R, tier):
                 # some referenced cells get their value through set_cells: error values, other numbers, texts (a decision taken at
                 # translation time from the workbook's constant would be stale here)
                 ks = R.rng.sample(['A1', 'A4', 'A5', 'A6', 'A9', 'B2'], R.rng.randint(1, 3))      # not A2, A3, A7: the raising sub-expressions read them
-                rc['overrides'] = {k: C.jenc(R.rng.choice(['#N/A', '#DIV/0!', '#VALUE!', 7, 0, 'y', 3])) for k in ks}
+                rc['overrides'] = {k: C.jenc(R.rng.choice(['#N/A', '#DIV/0!', '#VALUE!', 7, 0, 'y', 3, '#VALUE!s', '#N/A?'])) for k in ks}
             recipes.append(rc)
     cases = [make_case(rc) for rc in recipes]
     for c in cases[:2] + cases[-3:]:
